@@ -11,9 +11,11 @@
     iterator and visitor; trace recorded while emitting == trace seen by the visitor, start offsets == an
     independent model of the encoding, resolved jump targets == label offsets, constant pool, location table,
     registers, and the function body through bincode.
-(3) damaged packages (`damage`): strict prefixes and random single-bit flips of real package files through
-    decode_program_from_bytes in-process (panic capture, allocation tracking) and a sample through both
-    code-generator binaries. Clean refusal, or acceptance only of a program equal to the original.
+(3) damaged packages (`damage`): strict prefixes, the file followed by extra bytes, and random single-bit flips
+    of real package files through decode_program_from_bytes in-process (panic capture, allocation tracking) and
+    a sample through both code-generator binaries. Oracle: clean refusal. (Every file b the decoder accepts must
+    satisfy encode(decode(b)) == b; a damaged file that decodes to the original program would violate that, one
+    that decodes to another program is the "wrong program" of the property text.)
 """
 import hashlib
 import os
@@ -42,7 +44,8 @@ def run(ctx):
         "damaged inputs: single faults (one prefix cut or one flipped bit) per file",
     ]
     ctx.required_counters = ["programs_roundtripped", "cli_packages_roundtripped", "cli_executables_compared",
-                             "bytecode_functions", "damaged_inputs:truncation", "damaged_inputs:bitflip",
+                             "bytecode_functions", "damaged_inputs:truncation", "damaged_inputs:trailing",
+                             "damaged_inputs:bitflip",
                              "compiler_binary_runs"]
     progs = part_prog(ctx)
     pkgs = part_cli(ctx, bindir, progs)
@@ -218,17 +221,18 @@ def part_damage(ctx, bindir, pkgs):
         if ctx.quick() and step == 1 and size > 8000:
             step = max(1, size // 8000)
         nprefix = (size + step - 1) // step
-        total = nprefix + nflips
+        ntrail = 96
+        total = nprefix + ntrail + nflips
         per = max(1, nbin // len(files))
         tag = "f%d" % fi
         r = inproc.run_sharded("vh-bytecode", "damage", ctx.seed, total, "c18-damage-%d" % fi, timeout=ctx.pick(900, 3000),
-                               kv={"pkg": pkg, "step": step, "nprefix": nprefix, "dumpdir": work,
+                               kv={"pkg": pkg, "step": step, "nprefix": nprefix, "ntrail": ntrail, "dumpdir": work,
                                    "dumpevery": max(1, total // per), "tag": tag})
         _report(ctx, r, "damage")
-        ctx.observe("damage:%s" % os.path.basename(pkg), n=int(r.stats.get("damaged_inputs:truncation", 0) +
-                                                               r.stats.get("damaged_inputs:bitflip", 0)))
+        ctx.observe("damage:%s" % os.path.basename(pkg), n=int(sum(r.stats.get("damaged_inputs:" + c, 0) for c in
+                                                                   ("truncation", "trailing", "bitflip"))))
         for k, v in r.stats.items():
-            if ":" in k and isinstance(v, (int, float)) and k.split(":")[0] in ("truncation", "bitflip"):
+            if ":" in k and isinstance(v, (int, float)) and k.split(":")[0] in ("truncation", "trailing", "bitflip"):
                 hist[k] = hist.get(k, 0) + v
         ctx.count("damage_prefix_step_%s" % tag, step)
         for o in r.ok:
@@ -293,10 +297,11 @@ def part_damage(ctx, bindir, pkgs):
                 ctx.violation("c18:compiler-binary:%s:accepts-what-the-decoder-refuses" % name,
                               "%s accepts a damaged package that decode_program_from_bytes refuses (%s)" % (name, o["desc"]),
                               files=files_, cmd=cmd)
-            elif o["outcome"] == "accepted-equal-program" and not same:
-                ctx.violation("c18:compiler-binary:%s:equal-program-different-output" % name,
-                              "%s: the damaged package decodes to the original program but the generated assembly differs (%s)" % (
-                                  name, o["desc"]), files=files_, cmd=cmd)
+            elif o["outcome"] == "accepted-equal-program":
+                ctx.violation("c18:damaged-package-accepted-as-original:%s" % o["class"],
+                              "%s compiles a file that differs from the original package without complaint (%s); generated "
+                              "assembly %s the original's" % (name, o["desc"], "equals" if same else "differs from"),
+                              files=files_, cmd=cmd)
             elif o["outcome"] == "accepted-different-program":
                 ctx.count("compiler_binary_accepted_damaged:%s" % ("same-output" if same else "different-output"))
                 ctx.violation("c18:damaged-package-accepted:%s" % o["class"],
